@@ -2087,3 +2087,96 @@ def _skeleton3(u_i2: set, u_n: set, nested: bool) -> dict:
     a_out = iff(c, at, ae)
     out = use(0, a_out)
     return {"nodes": nodes, "outputs": [list(out)], "opset": 17}
+
+
+SK4_KINDS = ["LabelEncoder", "Scaler", "Binarizer", "BitNot", "BitXor", "Split18", "Gelu", "DFT"]
+
+
+def skeleton4_programs(pairs: bool = True) -> Iterator[tuple[dict, str]]:
+    """Exhaustive family aimed at *requirements that only a body contributes* (operator-set domain /
+    version): one special operator — an `ai.onnx.ml` operator, a since-18 operator at opset 18
+    (BitwiseNot / BitwiseXor / equal Split), a since-20 operator at opset 20 (Gelu, DFT) — is applied to
+    the value flowing through the nest
+
+        main ▸ If A { then ▸ Loop|Scan L { body ▸ If B { then, else } },  else } ;  then If D { then, else }
+
+    in exactly one (or two, `pairs`) of the eight graphs, everything else being old operators, so the
+    model's `opset_import` is right only if the requirement of that one body reaches the model —
+    whichever body is compiled first or last.  Yields (prog, tag)."""
+    places = ["main", "A.then", "A.else", "L.body", "B.then", "B.else", "D.then", "D.else"]
+    for kind in SK4_KINDS:
+        sets = [(i,) for i in range(8)] + (list(itertools.combinations(range(8), 2)) if pairs else [])
+        for us in sets:
+            yield _skeleton4(kind, set(us)), kind + "@" + "+".join(places[u] for u in us)
+
+
+def _skeleton4(kind: str, uses: set) -> dict:
+    nodes: list[dict] = []
+
+    def add(op, ins=(), subs=(), attrs=None, tys=()):
+        nodes.append({"op": op, "ins": [list(r) if r else None for r in ins], "subs": list(subs), "attrs": dict(attrs or {}), "ty": [list(t) for t in tys]})
+        return len(nodes) - 1
+
+    opset = {"BitNot": 18, "BitXor": 18, "Split18": 18, "Gelu": 20, "DFT": 20}.get(kind, 17)
+    if kind in ("LabelEncoder", "BitNot", "BitXor", "Split18"):
+        T = ty("i64", [N])
+    elif kind == "DFT":
+        T = ty("f32", [1, 2, N, 2])
+    else:
+        T = ty("f32", [N])
+    B_ = ty("bool", [])
+    x = add("arg", attrs={"role": "main"}, tys=[T])
+    c = add("arg", attrs={"role": "main"}, tys=[B_])
+    d = add("arg", attrs={"role": "main"}, tys=[B_])
+    use_loop = opset <= 18
+    if use_loop:
+        n = add("arg", attrs={"role": "main", "range": "trip"}, tys=[ty("i64", [])])
+    else:
+        xs = add("arg", attrs={"role": "main"}, tys=[ty(T[0], [2] + T[1])])
+
+    def special(base):
+        if kind == "LabelEncoder":
+            return (add(kind, [base], attrs={"keys": [0, 1, -2, 3], "values": [5, -1, 7, 2], "default": -3}, tys=[T]), 0)
+        if kind == "Scaler":
+            return (add(kind, [base], attrs={"offset": 0.5, "scale": 2.0}, tys=[T]), 0)
+        if kind == "Binarizer":
+            return (add(kind, [base], attrs={"threshold": 0.5}, tys=[T]), 0)
+        if kind == "BitNot":
+            return (add(kind, [base], tys=[T]), 0)
+        if kind == "BitXor":
+            return (add(kind, [base, (x, 0)], tys=[T]), 0)
+        if kind == "Split18":
+            sp = add("Split", [base, None], attrs={"axis": 0, "outputs": N}, tys=[ty("i64", [1])] * N)
+            return (add("Concat", [(sp, 2), (sp, 0), (sp, 1)], attrs={"axis": 0}, tys=[T]), 0)
+        if kind == "Gelu":
+            return (add(kind, [base], tys=[T]), 0)
+        return (add("DFT", [base, None, None], tys=[T]), 0)
+
+    def use(place, base):
+        return special(base) if place in uses else base
+
+    def iff(cond, t, el):
+        return (add("If", [(cond, 0)], [{"args": [], "res": [list(t)]}, {"args": [], "res": [list(el)]}], tys=[T]), 0)
+
+    if use_loop:
+        it = add("arg", attrs={"role": "formal"}, tys=[ty("i64", [], True)])
+        cn = add("arg", attrs={"role": "formal"}, tys=[ty("bool", [], True)])
+        acc = add("arg", attrs={"role": "formal"}, tys=[T])
+        formals = [it, cn, acc]
+    else:
+        acc = add("arg", attrs={"role": "formal"}, tys=[T])
+        sl = add("arg", attrs={"role": "formal"}, tys=[T])
+        formals = [acc, sl]
+    neg = (add("Neg", [(acc, 0)], tys=[T]), 0)
+    b_out = iff(d, use(4, neg), use(5, (acc, 0)))
+    body_res = use(3, b_out)
+    if use_loop:
+        loop = add("Loop", [(n, 0), None, (x, 0)], [{"args": formals, "res": [[cn, 0], list(body_res)]}], tys=[T])
+    else:
+        body_res = (add("Add", [body_res, (sl, 0)], tys=[T]), 0)
+        loop = add("Scan", [(x, 0), (xs, 0)], [{"args": formals, "res": [list(body_res)]}], attrs={"num_scan_inputs": 1}, tys=[T])
+    a_out = iff(c, use(1, (loop, 0)), use(2, (x, 0)))
+    m = use(0, a_out)
+    negm = (add("Neg", [m], tys=[T]), 0)
+    d_out = iff(d, use(6, m), use(7, negm))
+    return {"nodes": nodes, "outputs": [list(d_out)], "opset": opset}
